@@ -535,6 +535,29 @@ def check_isotherm_entry(ctx):
                     ctx.violate(core.make_violation({'check': 'isotherm-entry', 'method': 'alpha-s', 'limits': 'manual' if lim else 'automatic'},
                                                     f'alpha_s of reference*{k} + {off} (limits {lim}): slope {r["slope"]} intercept {r["intercept"]} volume {r["adsorbed_volume"]}; '
                                                     f'expected slope {k * a04}, intercept {off}, pore volume {vol}', {}, [k * a04, off, vol], [r['slope'], r['intercept'], r['adsorbed_volume']]))
+    # alpha-s of a sample measured on a pressure range that does NOT contain the reducing pressure (the reference's range does)
+    def mk_on(pp, nn):
+        return pygaps.PointIsotherm(pressure=pp, loading=nn, material='c14s', adsorbate='N2', temperature=T, pressure_mode='relative', loading_basis='molar',
+                                    loading_unit='mmol', material_basis='mass', material_unit='g')
+    ref_full = mk(ref_n, reps[0])
+    for k, off in ((1.0, 0.8), (2.5, 0.3)):
+        for name, sel, red in (('sample measured up to p/p0 = 0.30, default reducing pressure 0.4', p < 0.30, None),
+                               ('sample measured from p/p0 = 0.45, default reducing pressure 0.4', p > 0.45, None),
+                               ('sample measured from p/p0 = 0.10, reducing pressure 0.05', p > 0.10, 0.05)):
+            ps_, ns_ = p[sel], (k * ref_n + off)[sel]
+            a_red = float(numpy.interp(red or 0.4, p, ref_n))
+            alpha = ref_n[sel] / a_red
+            lim = (float(alpha[1]) * 0.999, float(alpha[-2]) * 1.001)
+            kw = dict(reducing_pressure=red) if red else {}
+            o = core.call(pgc.alpha_s, mk_on(ps_, ns_), ref_full, reference_area='BET', t_limits=lim, **kw)
+            ev += 1
+            nt += 1
+            good = o.ok and len(o.value['results']) == 1 and rel(o.value['results'][0]['slope'], k * a_red) < 1e-6 and \
+                abs(o.value['results'][0]['intercept'] - off) < 1e-6 * (k * a_red + off)
+            if not good:
+                ctx.violate(core.make_violation({'check': 'isotherm-entry', 'method': 'alpha-s', 'what': 'reducing pressure outside the sample range'},
+                                                f'alpha_s ({name}) of reference*{k} + {off}: {o.value["results"] if o.ok else o.brief()[:200]}; expected slope {k * a_red}, intercept {off}',
+                                                {'case': name}, [k * a_red, off], None))
     ctx.add('isotherm_entry_points', ev, nt)
 
 
